@@ -191,7 +191,35 @@ Proof.
   - rewrite comps_of_clean by exact HT. exact E.
 Qed.
 
-(* ---------- file system frames ---------- *)
+(* the check of securePath (after the fix): the target is the destination itself
+   or the destination plus plain elements *)
+Lemma clean_comps dest : rooted dest = true ->
+  rooted (clean dest) = true /\ comps (clean dest) = comps dest.
+Proof.
+  intros Hr. rewrite (clean_rooted _ Hr). split; [reflexivity|].
+  apply comps_of_clean, comps_plain, Hr.
+Qed.
+
+Lemma secure_target_eq dest name : rooted dest = true ->
+  secure_target dest name = SLASH :: join (comps (clean dest ++ SLASH :: name)).
+Proof. intros Hr. unfold secure_target. apply join2_rooted. apply (clean_comps _ Hr). Qed.
+
+Lemma guard_fixed_confined dest name : rooted dest = true -> guard_fixed dest name = true ->
+  exists rest, Forall plain rest /\ comps (secure_target dest name) = comps dest ++ rest.
+Proof.
+  intros Hr Hg. unfold guard_fixed in Hg. destruct (clean_comps _ Hr) as [Hrc Hcc].
+  rewrite (secure_target_eq _ _ Hr) in *.
+  assert (HT : Forall plain (comps (clean dest ++ SLASH :: name))) by (apply comps_plain, rooted_app, Hrc).
+  rewrite (comps_of_clean _ HT).
+  apply orb_true_iff in Hg as [Hg | Hg].
+  - apply str_eqb_eq in Hg. apply (f_equal comps) in Hg.
+    rewrite (comps_of_clean _ HT), Hcc in Hg. exists []. split; [constructor | now rewrite app_nil_r].
+  - rewrite (clean_rooted _ Hr) in Hg, HT |- *. cbn [app has_prefix] in Hg. rewrite N.eqb_refl in Hg. cbn [andb] in Hg.
+    destruct (prefix_join _ _ (comps_plain _ Hr) HT Hg) as [rest [_ E]].
+    exists rest. split; [|exact E]. rewrite E in HT. now apply Forall_app in HT.
+Qed.
+
+(* ---------- file system ---------- *)
 
 Lemma path_eqb_eq p q : path_eqb p q = true -> p = q.
 Proof. apply list_eqb_eq. apply str_eqb_eq. Qed.
@@ -230,127 +258,6 @@ Proof.
            ++ rewrite <- E1. symmetry. apply lookup_set_other. intros Hq. rewrite Hq in Eq. now rewrite path_eqb_refl in Eq.
            ++ exists (S k). cbn. now rewrite <- app_assoc.
 Qed.
-
-Definition sunder (D q : path) : Prop := exists r, r <> [] /\ q = D ++ r.
-Definition frame (D : path) (fs fs' : fsys) : Prop := forall q, ~ sunder D q -> lookup fs' q = lookup fs q.
-Definition dest_exists (fs : fsys) (D : path) : Prop := forall k, lookup fs (firstn k D) = Some Dir.
-
-Lemma frame_refl D fs : frame D fs fs.
-Proof. intros q _. reflexivity. Qed.
-
-Lemma frame_trans D a b c : frame D a b -> frame D b c -> frame D a c.
-Proof. intros H1 H2 q Hq. now rewrite (H2 q Hq), (H1 q Hq). Qed.
-
-Lemma firstn_not_under D k : ~ sunder D (firstn k D).
-Proof.
-  intros [r [Hne E]]. apply (f_equal (@length _)) in E. rewrite app_length, firstn_length in E.
-  destruct r; [congruence|]. cbn in E. lia.
-Qed.
-
-Lemma frame_dest_exists D fs fs' : frame D fs fs' -> dest_exists fs D -> dest_exists fs' D.
-Proof. intros HF HE k. rewrite (HF _ (firstn_not_under D k)). apply HE. Qed.
-
-Lemma mkdir_all_frame D r fs fs' : dest_exists fs D -> mkdir_all fs (D ++ r) = Some fs' -> frame D fs fs'.
-Proof.
-  intros HE H q Hq. unfold mkdir_all in H.
-  destruct (mkdir_walk_changes _ _ _ _ H q) as [E | [E1 [_ [k Ek]]]]; [exact E|]. exfalso.
-  cbn [app] in Ek. rewrite firstn_app in Ek.
-  destruct (firstn (S k - length D) r) as [|x xs] eqn:Er.
-  - rewrite app_nil_r in Ek. subst q. rewrite HE in E1. discriminate.
-  - assert (S k > length D)%nat by (destruct (S k - length D)%nat eqn:En; [cbn in Er; discriminate | lia]).
-    rewrite firstn_all2 in Ek by lia. apply Hq. exists (x :: xs). split; [discriminate | exact Ek].
-Qed.
-
-Lemma write_file_frame D r t fs fs' data : r <> [] -> write_file t fs (D ++ r) data = Some fs' -> frame D fs fs'.
-Proof.
-  intros Hr H q Hq. unfold write_file in H.
-  destruct (D ++ r) as [|a p] eqn:Ep; [discriminate|]. rewrite <- Ep in *.
-  assert (q <> D ++ r) by (intros ->; apply Hq; now exists r).
-  destruct (lookup fs (parent (D ++ r))) as [[|?]|]; try discriminate.
-  destruct (lookup fs (D ++ r)) as [[|old]|]; try discriminate;
-    inversion H; subst; now apply lookup_set_other.
-Qed.
-
-Lemma parent_app D r : r <> [] -> parent (D ++ r) = D ++ removelast r.
-Proof. intros Hr. unfold parent. now apply removelast_app. Qed.
-
-Lemma targz_frame dest : rooted dest = true -> forall es fs fs' ok,
-  dest_exists fs (comps dest) -> extract_targz dest es fs = (fs', ok) -> frame (comps dest) fs fs'.
-Proof.
-  intros Hr. induction es as [|e es IH]; intros fs fs' ok HE H; cbn [extract_targz] in H.
-  - inversion H. apply frame_refl.
-  - destruct (guard dest (te_name e)) eqn:Hg; cbn [negb] in H; [|inversion H; apply frame_refl].
-    destruct (guard_confined _ _ Hr Hg) as [rest [Hne [_ Et]]]. rewrite Et in H.
-    destruct (te_kind e).
-    + rewrite (parent_app _ _ Hne) in H.
-      destruct (mkdir_all fs (comps dest ++ removelast rest)) as [fs1|] eqn:Em; [|inversion H; apply frame_refl].
-      pose proof (mkdir_all_frame _ _ _ _ HE Em) as F1.
-      destruct (write_file false fs1 (comps dest ++ rest) (te_data e)) as [fs2|] eqn:Ew.
-      * pose proof (write_file_frame _ _ _ _ _ _ Hne Ew) as F2.
-        eapply frame_trans; [eapply frame_trans; [exact F1 | exact F2]|].
-        eapply IH; [|exact H]. eapply frame_dest_exists; [exact F2|]. eapply frame_dest_exists; eauto.
-      * inversion H; subst. exact F1.
-    + destruct (mkdir_all fs (comps dest ++ rest)) as [fs1|] eqn:Em; [|inversion H; apply frame_refl].
-      pose proof (mkdir_all_frame _ _ _ _ HE Em) as F1.
-      eapply frame_trans; [exact F1|]. eapply IH; [|exact H]. eapply frame_dest_exists; eauto.
-    + eapply IH; eauto.
-Qed.
-
-(* ---------- plain relative names are accepted ---------- *)
-
-Lemma split_nonempty s : split s <> [].
-Proof. destruct s as [|c r]; cbn; [discriminate|]. destruct (c =? SLASH); [discriminate|]. destruct (split r); discriminate. Qed.
-
-Lemma split_app_slash : forall a b, split (a ++ SLASH :: b) = split a ++ split b.
-Proof.
-  induction a as [|c a IH]; intros b.
-  - cbn [app split]. now rewrite N.eqb_refl.
-  - cbn [app split]. destruct (c =? SLASH); rewrite IH; [reflexivity|].
-    destruct (split a) as [|h t] eqn:E; [now apply split_nonempty in E | reflexivity].
-Qed.
-
-Lemma norm_segs_app rt : forall xs ys st,
-  norm_segs rt (xs ++ ys) st = norm_segs rt ys (rev (norm_segs rt xs st)).
-Proof.
-  induction xs as [|x xs IH]; intros ys st.
-  - cbn. now rewrite rev_involutive.
-  - cbn [app norm_segs]. destruct (is_nil x || is_dot x); [apply IH|].
-    destruct (is_dotdot x); [|apply IH].
-    destruct st as [|top st']; [destruct rt; apply IH|]. destruct (is_dotdot top); apply IH.
-Qed.
-
-Lemma comps_join_plain dest r : rooted dest = true -> Forall plain r -> r <> [] ->
-  comps (dest ++ SLASH :: join r) = comps dest ++ r.
-Proof.
-  intros Hr Hp Hne. unfold comps. rewrite (rooted_app _ _ Hr), Hr.
-  rewrite split_app_slash, norm_segs_app, (split_join r Hp Hne), norm_plain_id by exact Hp.
-  now rewrite rev_involutive.
-Qed.
-
-Lemma join_app D r : D <> [] -> r <> [] -> join (D ++ r) = join D ++ SLASH :: join r.
-Proof.
-  induction D as [|d D IH]; intros HD Hr; [congruence|].
-  cbn [app]. rewrite !join_cons. destruct D as [|d' D].
-  - cbn [app is_nil]. destruct r; [congruence|]. cbn [is_nil]. now rewrite app_nil_r.
-  - cbn [app is_nil] in *. rewrite IH by (discriminate || assumption). now rewrite <- app_assoc.
-Qed.
-
-Lemma has_prefix_self_app p s : has_prefix (p ++ s) p = true.
-Proof. induction p as [|x p IH]; [destruct s; reflexivity|]. cbn [app has_prefix]. now rewrite N.eqb_refl. Qed.
-
-Lemma plain_accepted dest r : rooted dest = true -> comps dest <> [] -> Forall plain r -> r <> [] ->
-  guard dest (join r) = true /\ comps (join2 dest (join r)) = comps dest ++ r.
-Proof.
-  intros Hr HD Hp Hne.
-  assert (HT : Forall plain (comps dest ++ r)) by (apply Forall_app; split; [now apply comps_plain | exact Hp]).
-  unfold guard. rewrite (join2_rooted _ _ Hr), (clean_rooted _ Hr), (comps_join_plain _ _ Hr Hp Hne). split.
-  - rewrite (join_app _ _ HD Hne). cbn [app has_prefix]. rewrite N.eqb_refl. cbn [andb].
-    change (join (comps dest) ++ SLASH :: join r) with (join (comps dest) ++ [SLASH] ++ join r).
-    rewrite app_assoc. apply has_prefix_self_app.
-  - now apply comps_of_clean.
-Qed.
-
-(* ---------- MkdirAll succeeds when no file is in the way ---------- *)
 
 Definition pref (q p : path) : Prop := exists s, p = q ++ s.
 
@@ -409,6 +316,274 @@ Proof.
     + intros ->. discriminate.
 Qed.
 
+
+Lemma pref_refl (p : path) : pref p p.
+Proof. exists []. now rewrite app_nil_r. Qed.
+
+Lemma pref_trans (a b c : path) : pref a b -> pref b c -> pref a c.
+Proof. intros [s ->] [t ->]. exists (s ++ t). now rewrite app_assoc. Qed.
+
+Lemma pref_removelast (p : path) : p <> [] -> pref (removelast p) p.
+Proof. intros H. exists [last p []]. now apply app_removelast_last. Qed.
+
+Lemma pref_app_inv (D a b : path) : pref (D ++ a) (D ++ b) -> pref a b.
+Proof. intros [s Hs]. rewrite <- app_assoc in Hs. apply app_inv_head in Hs. now exists s. Qed.
+
+Lemma length_removelast {A} (p : list A) : p <> [] -> length p = S (length (removelast p)).
+Proof.
+  intros H. destruct p as [|a p']; [congruence|].
+  pose proof (app_removelast_last a H) as HL. apply (f_equal (@length _)) in HL.
+  rewrite app_length in HL. cbn [length] in HL. cbn [length]. lia.
+Qed.
+
+Lemma mkdir_all_changes fs p fs' : mkdir_all fs p = Some fs' ->
+  forall q, lookup fs' q = lookup fs q \/ (lookup fs q = None /\ lookup fs' q = Some Dir /\ pref q p /\ q <> []).
+Proof.
+  intros E q. destruct (mkdir_walk_changes _ _ _ _ E q) as [Eq | [E1 [E2 [k Ek]]]]; [now left|].
+  right. repeat split; auto.
+  - cbn [app] in Ek. subst q. apply firstn_pref.
+  - intros ->. discriminate.
+Qed.
+
+(* ---------- nothing outside the destination changes ---------- *)
+
+Definition sunder (D q : path) : Prop := exists r, r <> [] /\ q = D ++ r.
+Definition frame (D : path) (fs fs' : fsys) : Prop := forall q, ~ sunder D q -> lookup fs' q = lookup fs q.
+Definition dest_exists (fs : fsys) (D : path) : Prop := forall k, lookup fs (firstn k D) = Some Dir.
+
+Lemma frame_refl D fs : frame D fs fs.
+Proof. intros q _. reflexivity. Qed.
+
+Lemma frame_trans D a b c : frame D a b -> frame D b c -> frame D a c.
+Proof. intros H1 H2 q Hq. now rewrite (H2 q Hq), (H1 q Hq). Qed.
+
+Lemma firstn_not_under D k : ~ sunder D (firstn k D).
+Proof.
+  intros [r [Hne E]]. apply (f_equal (@length _)) in E. rewrite app_length, firstn_length in E.
+  destruct r; [congruence|]. cbn in E. lia.
+Qed.
+
+Lemma frame_dest_exists D fs fs' : frame D fs fs' -> dest_exists fs D -> dest_exists fs' D.
+Proof. intros HF HE k. rewrite (HF _ (firstn_not_under D k)). apply HE. Qed.
+
+Lemma pref_split (q D r : path) : pref q (D ++ r) -> (exists k, q = firstn k D) \/ sunder D q.
+Proof.
+  intros [s Hs]. symmetry in Hs. apply app_eq_app in Hs as [l [[E1 E2] | [E1 E2]]].
+  - destruct l as [|x l].
+    + left. exists (length D). rewrite app_nil_r in E1. subst q. now rewrite firstn_all.
+    + right. exists (x :: l). split; [discriminate | exact E1].
+  - left. exists (length q). rewrite E1. rewrite firstn_app, firstn_all, Nat.sub_diag. cbn. now rewrite app_nil_r.
+Qed.
+
+(* MkdirAll of a path all of whose prefixes are prefixes of D or lie below D *)
+Lemma mkdir_all_frame_gen D p fs fs' : dest_exists fs D ->
+  (forall q, pref q p -> (exists k, q = firstn k D) \/ sunder D q) ->
+  mkdir_all fs p = Some fs' -> frame D fs fs'.
+Proof.
+  intros HE Hp H q Hq.
+  destruct (mkdir_all_changes _ _ _ H q) as [E | [E1 [_ [Hpref _]]]]; [exact E|]. exfalso.
+  destruct (Hp q Hpref) as [[k ->] | Hs]; [rewrite HE in E1; discriminate | exact (Hq Hs)].
+Qed.
+
+Lemma mkdir_all_frame D r fs fs' : dest_exists fs D -> mkdir_all fs (D ++ r) = Some fs' -> frame D fs fs'.
+Proof. intros HE. apply mkdir_all_frame_gen; [exact HE|]. intros q. apply pref_split. Qed.
+
+Lemma put_dir_frame D r fs fs' ok : dest_exists fs D -> put_dir fs (D ++ r) = (fs', ok) -> frame D fs fs'.
+Proof.
+  intros HE H. unfold put_dir in H. destruct (mkdir_all fs (D ++ r)) as [fs1|] eqn:Em; inversion H; subst.
+  - eapply mkdir_all_frame; eauto.
+  - apply frame_refl.
+Qed.
+
+Lemma write_file_frame D r t fs fs' data : r <> [] -> write_file t fs (D ++ r) data = Some fs' -> frame D fs fs'.
+Proof.
+  intros Hr H q Hq. unfold write_file in H.
+  destruct (D ++ r) as [|a p] eqn:Ep; [discriminate|]. rewrite <- Ep in *.
+  assert (q <> D ++ r) by (intros ->; apply Hq; now exists r).
+  destruct (lookup fs (parent (D ++ r))) as [[|?]|]; try discriminate.
+  destruct (lookup fs (D ++ r)) as [[|old]|]; try discriminate;
+    inversion H; subst; now apply lookup_set_other.
+Qed.
+
+Lemma write_file_on_dir t fs p data : lookup fs p = Some Dir -> write_file t fs p data = None.
+Proof.
+  intros H. unfold write_file. destruct p as [|a p]; [reflexivity|].
+  destruct (lookup fs (parent (a :: p))) as [[|?]|]; try reflexivity. now rewrite H.
+Qed.
+
+Lemma put_file_frame D r t fs fs' ok data : dest_exists fs D ->
+  put_file t true fs (D ++ r) data = (fs', ok) -> frame D fs fs'.
+Proof.
+  intros HE H. unfold put_file in H.
+  destruct (mkdir_all fs (parent (D ++ r))) as [fs1|] eqn:Em; [|inversion H; apply frame_refl].
+  assert (F1 : frame D fs fs1).
+  { eapply mkdir_all_frame_gen; [exact HE | | exact Em].
+    intros q Hq. apply (pref_split q D r). unfold parent in Hq.
+    destruct (D ++ r) as [|a p] eqn:Ep; [exact Hq|]. rewrite <- Ep in *.
+    eapply pref_trans; [exact Hq|]. apply pref_removelast. rewrite Ep. discriminate. }
+  destruct r as [|x r].
+  - rewrite app_nil_r in H. rewrite write_file_on_dir in H.
+    + inversion H; subst. exact F1.
+    + pose proof (frame_dest_exists _ _ _ F1 HE (length D)) as Hd. now rewrite firstn_all in Hd.
+  - destruct (write_file t fs1 (D ++ x :: r) data) as [fs2|] eqn:Ew; inversion H; subst; [|exact F1].
+    eapply frame_trans; [exact F1|]. eapply write_file_frame; [|exact Ew]. discriminate.
+Qed.
+
+Lemma targz_frame fixed dest : rooted dest = true -> forall es fs fs' ok,
+  dest_exists fs (comps dest) -> extract_targz fixed dest es fs = (fs', ok) -> frame (comps dest) fs fs'.
+Proof.
+  intros Hr. induction es as [|e es IH]; intros fs fs' ok HE H; cbn [extract_targz] in H.
+  - inversion H. apply frame_refl.
+  - assert (Ht : (if fixed then guard_fixed dest (te_name e) else guard dest (te_name e)) = true ->
+                 exists rest, comps (if fixed then secure_target dest (te_name e) else join2 dest (te_name e))
+                              = comps dest ++ rest).
+    { destruct fixed; intros Hg.
+      - destruct (guard_fixed_confined _ _ Hr Hg) as [rest [_ E]]. eauto.
+      - destruct (guard_confined _ _ Hr Hg) as [rest [_ [_ E]]]. eauto. }
+    destruct (if fixed then guard_fixed dest (te_name e) else guard dest (te_name e)); cbn [negb] in H;
+      [|inversion H; apply frame_refl].
+    destruct (Ht eq_refl) as [rest Et]. rewrite Et in H.
+    destruct (te_kind e).
+    + destruct (put_file fixed true fs (comps dest ++ rest) (te_data e)) as [fs1 ok1] eqn:Ep.
+      pose proof (put_file_frame _ _ _ _ _ _ _ HE Ep) as F1. cbn [fst snd] in H.
+      destruct ok1; [|inversion H; subst; exact F1].
+      eapply frame_trans; [exact F1|]. eapply IH; [|exact H]. eapply frame_dest_exists; eauto.
+    + destruct (put_dir fs (comps dest ++ rest)) as [fs1 ok1] eqn:Ep.
+      pose proof (put_dir_frame _ _ _ _ _ HE Ep) as F1. cbn [fst snd] in H.
+      destruct ok1; [|inversion H; subst; exact F1].
+      eapply frame_trans; [exact F1|]. eapply IH; [|exact H]. eapply frame_dest_exists; eauto.
+    + eapply IH; eauto.
+Qed.
+
+Lemma zip_frame dest : rooted dest = true -> forall es fs fs' ok,
+  dest_exists fs (comps dest) -> extract_zip true dest es fs = (fs', ok) -> frame (comps dest) fs fs'.
+Proof.
+  intros Hr. induction es as [|e es IH]; intros fs fs' ok HE H; cbn [extract_zip] in H.
+  - inversion H. apply frame_refl.
+  - destruct (guard_fixed dest (ze_name e)) eqn:Hg; cbn [negb andb] in H; [|inversion H; apply frame_refl].
+    destruct (guard_fixed_confined _ _ Hr Hg) as [rest [_ Et]]. rewrite Et in H.
+    destruct (ze_isdir e).
+    + destruct (put_dir fs (comps dest ++ rest)) as [fs1 ok1] eqn:Ep.
+      pose proof (put_dir_frame _ _ _ _ _ HE Ep) as F1. cbn [fst snd] in H.
+      destruct ok1; [|inversion H; subst; exact F1].
+      eapply frame_trans; [exact F1|]. eapply IH; [|exact H]. eapply frame_dest_exists; eauto.
+    + destruct (put_file true true fs (comps dest ++ rest) (ze_data e)) as [fs1 ok1] eqn:Ep.
+      pose proof (put_file_frame _ _ _ _ _ _ _ HE Ep) as F1. cbn [fst snd] in H.
+      destruct ok1; [|inversion H; subst; exact F1].
+      eapply frame_trans; [exact F1|]. eapply IH; [|exact H]. eapply frame_dest_exists; eauto.
+Qed.
+
+(* ---------- plain relative names are accepted ---------- *)
+
+Lemma split_nonempty s : split s <> [].
+Proof. destruct s as [|c r]; cbn; [discriminate|]. destruct (c =? SLASH); [discriminate|]. destruct (split r); discriminate. Qed.
+
+Lemma split_app_slash : forall a b, split (a ++ SLASH :: b) = split a ++ split b.
+Proof.
+  induction a as [|c a IH]; intros b.
+  - cbn [app split]. now rewrite N.eqb_refl.
+  - cbn [app split]. destruct (c =? SLASH); rewrite IH; [reflexivity|].
+    destruct (split a) as [|h t] eqn:E; [now apply split_nonempty in E | reflexivity].
+Qed.
+
+Lemma norm_segs_app rt : forall xs ys st,
+  norm_segs rt (xs ++ ys) st = norm_segs rt ys (rev (norm_segs rt xs st)).
+Proof.
+  induction xs as [|x xs IH]; intros ys st.
+  - cbn. now rewrite rev_involutive.
+  - cbn [app norm_segs]. destruct (is_nil x || is_dot x); [apply IH|].
+    destruct (is_dotdot x); [|apply IH].
+    destruct st as [|top st']; [destruct rt; apply IH|]. destruct (is_dotdot top); apply IH.
+Qed.
+
+Lemma comps_join_plain dest r : rooted dest = true -> Forall plain r -> r <> [] ->
+  comps (dest ++ SLASH :: join r) = comps dest ++ r.
+Proof.
+  intros Hr Hp Hne. unfold comps. rewrite (rooted_app _ _ Hr), Hr.
+  rewrite split_app_slash, norm_segs_app, (split_join r Hp Hne), norm_plain_id by exact Hp.
+  now rewrite rev_involutive.
+Qed.
+
+Lemma join_app D r : D <> [] -> r <> [] -> join (D ++ r) = join D ++ SLASH :: join r.
+Proof.
+  induction D as [|d D IH]; intros HD Hr; [congruence|].
+  cbn [app]. rewrite !join_cons. destruct D as [|d' D].
+  - cbn [app is_nil]. destruct r; [congruence|]. cbn [is_nil]. now rewrite app_nil_r.
+  - cbn [app is_nil] in *. rewrite IH by (discriminate || assumption). now rewrite <- app_assoc.
+Qed.
+
+Lemma has_prefix_self_app p s : has_prefix (p ++ s) p = true.
+Proof. induction p as [|x p IH]; [destruct s; reflexivity|]. cbn [app has_prefix]. now rewrite N.eqb_refl. Qed.
+
+Lemma plain_accepted dest r : rooted dest = true -> comps dest <> [] -> Forall plain r -> r <> [] ->
+  guard dest (join r) = true /\ comps (join2 dest (join r)) = comps dest ++ r.
+Proof.
+  intros Hr HD Hp Hne.
+  assert (HT : Forall plain (comps dest ++ r)) by (apply Forall_app; split; [now apply comps_plain | exact Hp]).
+  unfold guard. rewrite (join2_rooted _ _ Hr), (clean_rooted _ Hr), (comps_join_plain _ _ Hr Hp Hne). split.
+  - rewrite (join_app _ _ HD Hne). cbn [app has_prefix]. rewrite N.eqb_refl. cbn [andb].
+    change (join (comps dest) ++ SLASH :: join r) with (join (comps dest) ++ [SLASH] ++ join r).
+    rewrite app_assoc. apply has_prefix_self_app.
+  - now apply comps_of_clean.
+Qed.
+
+
+(* plain names under securePath, optionally written with a trailing slash (zip
+   directory entries) *)
+Lemma norm_drop rt : forall segs st,
+  Forall (fun s => is_nil s || is_dot s = true) segs -> norm_segs rt segs st = rev st.
+Proof.
+  induction segs as [|s r IH]; intros st H; cbn [norm_segs]; [reflexivity|].
+  inversion H as [|? ? H1 H2]; subst. rewrite H1. now apply IH.
+Qed.
+
+Lemma comps_join_plain_sfx dest r sfx : rooted dest = true -> Forall plain r -> r <> [] ->
+  (sfx = [] \/ sfx = [SLASH]) ->
+  comps (dest ++ SLASH :: join r ++ sfx) = comps dest ++ r.
+Proof.
+  intros Hr Hp Hne [-> | ->].
+  - rewrite app_nil_r. now apply comps_join_plain.
+  - unfold comps. rewrite (rooted_app _ _ Hr), Hr.
+    replace (dest ++ SLASH :: join r ++ [SLASH]) with ((dest ++ SLASH :: join r) ++ SLASH :: [])
+      by (now rewrite <- app_assoc).
+    rewrite split_app_slash, norm_segs_app.
+    fold (comps dest). pose proof (comps_join_plain dest r Hr Hp Hne) as E.
+    unfold comps in E. rewrite (rooted_app _ _ Hr), Hr in E. rewrite E.
+    cbn [split]. rewrite norm_drop by (repeat constructor). now rewrite rev_involutive.
+Qed.
+
+Lemma plain_accepted_fixed dest r sfx : rooted dest = true -> comps dest <> [] -> Forall plain r -> r <> [] ->
+  (sfx = [] \/ sfx = [SLASH]) ->
+  guard_fixed dest (join r ++ sfx) = true /\ comps (secure_target dest (join r ++ sfx)) = comps dest ++ r.
+Proof.
+  intros Hr HD Hp Hne Hs. destruct (clean_comps _ Hr) as [Hrc Hcc].
+  assert (HT : Forall plain (comps dest ++ r)) by (apply Forall_app; split; [now apply comps_plain | exact Hp]).
+  assert (E : comps (clean dest ++ SLASH :: join r ++ sfx) = comps dest ++ r)
+    by (rewrite (comps_join_plain_sfx _ _ _ Hrc Hp Hne Hs); now rewrite Hcc).
+  unfold guard_fixed. rewrite (secure_target_eq _ _ Hr), E. split.
+  - apply orb_true_iff. right. rewrite (clean_rooted _ Hr), (join_app _ _ HD Hne).
+    cbn [app has_prefix]. rewrite N.eqb_refl. cbn [andb].
+    change (join (comps dest) ++ SLASH :: join r) with (join (comps dest) ++ [SLASH] ++ join r).
+    rewrite app_assoc. apply has_prefix_self_app.
+  - now apply comps_of_clean.
+Qed.
+
+(* names that only consist of empty and . elements (the root entry ./ of tar -c .)
+   name the destination itself and are accepted by securePath *)
+Lemma dot_names_accepted dest name : rooted dest = true ->
+  Forall (fun s => is_nil s || is_dot s = true) (split name) ->
+  guard_fixed dest name = true /\ comps (secure_target dest name) = comps dest.
+Proof.
+  intros Hr Hd. destruct (clean_comps _ Hr) as [Hrc Hcc].
+  assert (E : comps (clean dest ++ SLASH :: name) = comps dest).
+  { unfold comps at 1. rewrite (rooted_app _ _ Hrc), split_app_slash, norm_segs_app.
+    rewrite norm_drop by exact Hd. rewrite rev_involutive.
+    unfold comps in Hcc. now rewrite Hrc in Hcc. }
+  unfold guard_fixed. rewrite (secure_target_eq _ _ Hr), E. split.
+  - apply orb_true_iff. left. rewrite (clean_rooted _ Hr). apply list_eqb_refl, N.eqb_refl.
+  - apply comps_of_clean, comps_plain, Hr.
+Qed.
+
 (* ---------- well-formed archives are reproduced exactly ---------- *)
 
 Definition went := (path * tkind * list N)%type.       (* relative path elements, kind, bytes *)
@@ -416,6 +591,10 @@ Definition w_rel (w : went) : path := fst (fst w).
 Definition w_kind (w : went) : tkind := snd (fst w).
 Definition w_data (w : went) : list N := snd w.
 Definition to_entry (w : went) : tentry := TE (join (w_rel w)) (w_kind w) (w_data w).
+(* zip: directory entries carry a trailing slash *)
+Definition w_isdir (w : went) : bool := match w_kind w with TDir => true | _ => false end.
+Definition to_zentry (w : went) : zentry :=
+  ZE (join (w_rel w) ++ (if w_isdir w then [SLASH] else [])) (w_isdir w) (w_data w).
 
 Definition expected (w : went) : option node :=
   match w_kind w with TReg => Some (File (w_data w)) | _ => Some Dir end.
@@ -434,50 +613,65 @@ Fixpoint wf_entries (ws : list went) : Prop :=
     wf_entries ws'
   end.
 
+(* what both extractors do with a well-formed entry once the name is resolved *)
+Definition place (D : path) (w : went) (fs : fsys) : fsys * bool :=
+  match w_kind w with
+  | TReg => put_file true true fs (D ++ w_rel w) (w_data w)
+  | _ => put_dir fs (D ++ w_rel w)
+  end.
+
+Fixpoint place_all (D : path) (ws : list went) (fs : fsys) : fsys * bool :=
+  match ws with
+  | [] => (fs, true)
+  | w :: ws' => let r := place D w fs in if snd r then place_all D ws' (fst r) else r
+  end.
+
+Lemma targz_place_all dest : rooted dest = true -> comps dest <> [] -> forall ws fs, wf_entries ws ->
+  extract_targz true dest (map to_entry ws) fs = place_all (comps dest) ws fs.
+Proof.
+  intros Hr HD. induction ws as [|w ws IH]; intros fs Hwf; [reflexivity|].
+  destruct Hwf as [Hp [Hne [Hk [_ Hwf']]]].
+  destruct (plain_accepted_fixed dest (w_rel w) [] Hr HD Hp Hne (or_introl eq_refl)) as [Hg Ht].
+  rewrite app_nil_r in Hg, Ht.
+  cbn [map extract_targz place_all to_entry te_name te_kind te_data]. rewrite Hg, Ht. cbn [negb].
+  unfold place. destruct (w_kind w); [| |congruence].
+  - destruct (put_file true true fs _ _) as [fs1 [|]]; cbn [fst snd]; [now apply IH | reflexivity].
+  - destruct (put_dir fs _) as [fs1 [|]]; cbn [fst snd]; [now apply IH | reflexivity].
+Qed.
+
+Lemma zip_place_all dest : rooted dest = true -> comps dest <> [] -> forall ws fs, wf_entries ws ->
+  extract_zip true dest (map to_zentry ws) fs = place_all (comps dest) ws fs.
+Proof.
+  intros Hr HD. induction ws as [|w ws IH]; intros fs Hwf; [reflexivity|].
+  destruct Hwf as [Hp [Hne [Hk [_ Hwf']]]].
+  destruct (plain_accepted_fixed dest (w_rel w) (if w_isdir w then [SLASH] else []) Hr HD Hp Hne
+              ltac:(destruct (w_isdir w); auto)) as [Hg Ht].
+  cbn [map extract_zip place_all to_zentry ze_name ze_isdir ze_data]. rewrite Hg, Ht. cbn [negb andb].
+  unfold place, w_isdir. destruct (w_kind w); [| |congruence].
+  - destruct (put_file true true fs _ _) as [fs1 [|]]; cbn [fst snd]; [now apply IH | reflexivity].
+  - destruct (put_dir fs _) as [fs1 [|]]; cbn [fst snd]; [now apply IH | reflexivity].
+Qed.
+
 Definition inv (D : path) (fs : fsys) (ws : list went) : Prop :=
   forall w, In w ws ->
     (forall q d, pref q (D ++ w_rel w) -> q <> D ++ w_rel w -> lookup fs q <> Some (File d)) /\
     (w_kind w = TReg -> lookup fs (D ++ w_rel w) = None) /\
     (forall d, lookup fs (D ++ w_rel w) <> Some (File d)).
 
-Lemma pref_app_inv (D a b : path) : pref (D ++ a) (D ++ b) -> pref a b.
-Proof. intros [s Hs]. rewrite <- app_assoc in Hs. apply app_inv_head in Hs. now exists s. Qed.
-
-Lemma pref_refl (p : path) : pref p p.
-Proof. exists []. now rewrite app_nil_r. Qed.
-
-Lemma pref_removelast (p : path) : p <> [] -> pref (removelast p) p.
-Proof. intros H. exists [last p []]. now apply app_removelast_last. Qed.
-
-Lemma pref_trans (a b c : path) : pref a b -> pref b c -> pref a c.
-Proof. intros [s ->] [t ->]. exists (s ++ t). now rewrite app_assoc. Qed.
-
-Lemma length_removelast {A} (p : list A) : p <> [] -> length p = S (length (removelast p)).
-Proof.
-  intros H. destruct p as [|a p']; [congruence|].
-  pose proof (app_removelast_last a H) as HL. apply (f_equal (@length _)) in HL.
-  rewrite app_length in HL. cbn [length] in HL. cbn [length]. lia.
-Qed.
-
-(* one step of the loop on a well-formed entry *)
-Lemma step_ok dest w fs : rooted dest = true -> comps dest <> [] ->
-  Forall plain (w_rel w) -> w_rel w <> [] -> w_kind w <> TOther ->
-  inv (comps dest) fs [w] ->
-  forall es, exists fs2,
-    extract_targz dest (to_entry w :: es) fs = extract_targz dest es fs2 /\
-    lookup fs2 (comps dest ++ w_rel w) = expected w /\
+(* one step on a well-formed entry *)
+Lemma place_ok D w fs : D <> [] -> w_rel w <> [] -> w_kind w <> TOther -> inv D fs [w] ->
+  exists fs2, place D w fs = (fs2, true) /\
+    lookup fs2 (D ++ w_rel w) = expected w /\
     forall q, lookup fs2 q = lookup fs q \/
-              (lookup fs q = None /\ pref q (comps dest ++ w_rel w) /\ q <> [] /\
-               (lookup fs2 q = Some Dir \/ (q = comps dest ++ w_rel w /\ w_kind w = TReg))).
+              (lookup fs q = None /\ pref q (D ++ w_rel w) /\ q <> [] /\
+               (lookup fs2 q = Some Dir \/ (q = D ++ w_rel w /\ w_kind w = TReg))).
 Proof.
-  intros Hr HD Hp Hne Hk Hinv es. set (D := comps dest) in *. set (r := w_rel w) in *.
+  intros HD Hne Hk Hinv. set (r := w_rel w) in *.
   destruct (Hinv w (or_introl eq_refl)) as [Ha [Hb Hc]]. fold r in Ha, Hb, Hc.
-  destruct (plain_accepted dest r Hr HD Hp Hne) as [Hg Ht]. fold D in Ht.
-  cbn [extract_targz to_entry te_name te_kind te_data]. fold r. rewrite Hg, Ht. cbn [negb].
   assert (HPne : D ++ r <> []) by (destruct D; [congruence | discriminate]).
-  unfold expected. destruct (w_kind w) eqn:Ek; [| |congruence].
+  unfold place, expected. fold r. destruct (w_kind w) eqn:Ek; [| |congruence].
   - (* regular file *)
-    assert (Hpar : parent (D ++ r) = D ++ removelast r) by now apply parent_app.
+    unfold put_file.
     destruct (mkdir_all_ok fs (parent (D ++ r))) as [fs1 [Em [Hdirs Hch]]].
     { intros q d Hq. apply Ha.
       - eapply pref_trans; [exact Hq|]. now apply pref_removelast.
@@ -499,6 +693,7 @@ Proof.
       destruct (Hch q) as [E | [E1 [E2 [E3 E4]]]]; [now left|]. right. repeat split; auto.
       eapply pref_trans; [exact E3|]. now apply pref_removelast.
   - (* directory *)
+    unfold put_dir.
     destruct (mkdir_all_ok fs (D ++ r)) as [fs1 [Em [Hdirs Hch]]].
     { intros q d Hq. destruct (path_eqb q (D ++ r)) eqn:Eq.
       - apply path_eqb_eq in Eq. subst q. apply Hc.
@@ -507,23 +702,23 @@ Proof.
     intros q. destruct (Hch q) as [E | [E1 [E2 [E3 E4]]]]; [now left|]. right. repeat split; auto.
 Qed.
 
-Lemma targz_wellformed dest : rooted dest = true -> comps dest <> [] ->
-  forall ws fs, wf_entries ws -> inv (comps dest) fs ws ->
-  exists fs', extract_targz dest (map to_entry ws) fs = (fs', true) /\
-    (forall w, In w ws -> lookup fs' (comps dest ++ w_rel w) = expected w) /\
+Lemma place_all_wellformed D : D <> [] ->
+  forall ws fs, wf_entries ws -> inv D fs ws ->
+  exists fs', place_all D ws fs = (fs', true) /\
+    (forall w, In w ws -> lookup fs' (D ++ w_rel w) = expected w) /\
     (forall q, lookup fs' q = lookup fs q \/
-               (lookup fs q = None /\ q <> [] /\ exists w, In w ws /\ pref q (comps dest ++ w_rel w))).
+               (lookup fs q = None /\ q <> [] /\ exists w, In w ws /\ pref q (D ++ w_rel w))).
 Proof.
-  intros Hr HD. induction ws as [|w ws IH]; intros fs Hwf Hinv.
+  intros HD. induction ws as [|w ws IH]; intros fs Hwf Hinv.
   - exists fs. split; [reflexivity|]. split; [intros w []|]. intros q. now left.
   - destruct Hwf as [Hp [Hne [Hk [Hpair Hwf']]]].
-    destruct (step_ok dest w fs Hr HD Hp Hne Hk) with (es := map to_entry ws) as [fs2 [Estep [Hexp Hch]]].
+    destruct (place_ok D w fs HD Hne Hk) as [fs2 [Estep [Hexp Hch]]].
     { intros w0 [<- | []]. apply Hinv. now left. }
-    assert (Hinv2 : inv (comps dest) fs2 ws).
+    assert (Hinv2 : inv D fs2 ws).
     { intros w' Hw'. destruct (Hinv w' (or_intror Hw')) as [Ha [Hb Hc]].
       destruct (Hpair w' Hw') as [P1 P2].
       assert (Hfile : forall q d, lookup fs2 q = Some (File d) -> lookup fs q <> Some (File d) ->
-                                  q = comps dest ++ w_rel w /\ w_kind w = TReg).
+                                  q = D ++ w_rel w /\ w_kind w = TReg).
       { intros q d E Hn. destruct (Hch q) as [E' | [_ [_ [_ [E' | E']]]]].
         - rewrite E' in E. contradiction.
         - rewrite E' in E. discriminate.
@@ -531,14 +726,14 @@ Proof.
       split; [|split].
       - intros q d Hq Hneq E. destruct (Hfile q d E (Ha q d Hq Hneq)) as [-> Hreg].
         apply (P1 Hreg). now apply pref_app_inv in Hq.
-      - intros Hreg. destruct (Hch (comps dest ++ w_rel w')) as [E | [_ [Hq _]]]; [rewrite E; now apply Hb|].
+      - intros Hreg. destruct (Hch (D ++ w_rel w')) as [E | [_ [Hq _]]]; [rewrite E; now apply Hb|].
         exfalso. apply (P2 Hreg). now apply pref_app_inv in Hq.
       - intros d E. destruct (Hfile _ d E (Hc d)) as [Eq Hreg].
         apply app_inv_head in Eq. apply (P1 Hreg). rewrite Eq. apply pref_refl. }
     destruct (IH fs2 Hwf' Hinv2) as [fs' [Erun [Hall Hch']]].
-    exists fs'. split; [cbn [map]; rewrite Estep; exact Erun|]. split.
+    exists fs'. split; [cbn [place_all]; rewrite Estep; cbn [fst snd]; exact Erun|]. split.
     + intros w0 [<- | Hw0]; [|now apply Hall].
-      destruct (Hch' (comps dest ++ w_rel w)) as [E | [E _]]; [now rewrite E|].
+      destruct (Hch' (D ++ w_rel w)) as [E | [E _]]; [now rewrite E|].
       rewrite Hexp in E. unfold expected in E. destruct (w_kind w); discriminate.
     + intros q. destruct (Hch' q) as [E | [E1 [E2 [w' [Hw' Hq]]]]].
       * destruct (Hch q) as [E' | [E1 [E2 [E3 _]]]]; [left; congruence|].
@@ -549,15 +744,6 @@ Proof.
 Qed.
 
 (* an empty destination satisfies the invariant *)
-Lemma pref_split (q D r : path) : pref q (D ++ r) -> (exists k, q = firstn k D) \/ sunder D q.
-Proof.
-  intros [s Hs]. symmetry in Hs. apply app_eq_app in Hs as [l [[E1 E2] | [E1 E2]]].
-  - destruct l as [|x l].
-    + left. exists (length D). rewrite app_nil_r in E1. subst q. now rewrite firstn_all.
-    + right. exists (x :: l). split; [discriminate | exact E1].
-  - left. exists (length q). rewrite E1. rewrite firstn_app, firstn_all, Nat.sub_diag. cbn. now rewrite app_nil_r.
-Qed.
-
 Lemma empty_dest_inv D fs ws : dest_exists fs D -> (forall q, sunder D q -> lookup fs q = None) ->
   (forall w, In w ws -> w_rel w <> []) -> inv D fs ws.
 Proof.
@@ -567,4 +753,19 @@ Proof.
   split; [intros q d Hq _; now apply H|]. split.
   - intros _. apply Hempty. exists (w_rel w). split; [now apply Hne | reflexivity].
   - intros d. apply H, pref_refl.
+Qed.
+
+Lemma wf_rel_nonempty ws : wf_entries ws -> forall w, In w ws -> w_rel w <> [].
+Proof.
+  induction ws as [|w ws IH]; intros Hwf w0 []; destruct Hwf as [_ [Hne [_ [_ Hwf']]]]; subst; auto.
+Qed.
+
+(* a truncating write stores exactly the new bytes, whatever was there before *)
+Lemma write_trunc_exact fs p data fs' : write_file true fs p data = Some fs' ->
+  lookup fs' p = Some (File data).
+Proof.
+  unfold write_file. destruct p as [|a p]; [discriminate|].
+  destruct (lookup fs (parent (a :: p))) as [[|?]|]; try discriminate.
+  destruct (lookup fs (a :: p)) as [[|old]|]; try discriminate;
+    intros E; inversion E; subst; now apply lookup_set_same.
 Qed.
